@@ -328,7 +328,7 @@ Proof.
     destruct (hd_error_cons _ _ Hpp) as [rest Epr]. rewrite Epr.
     apply GIa1_Proof.bind_some_inv in Hb. simpl in Htg. inversion Htg; subst acq; clear Htg.
     apply acquired_free in Hfree.
-    destruct (ins_child_prep K V ltb HS order o0 p c index (tr s) _ _ _ o H2 Hev Hsh Hnodup Hlt Hpc Hb)
+    destruct (ins_child_prep_n K V ltb HS order o0 p c index (tr s) _ _ _ o H2 Hev Hsh Hnodup Hlt Hpc Hb)
       as [(t' & fr' & Hprep & Hd)|Heff]; [pose proof (ins_eff_prep K V ltb HS order _ _ _ _ _ _ _ _ Hprep Hd) as Heff|];
       eapply (ins_case order s me PO); eauto.
   - (* InsWantSplitRight *)
